@@ -8,7 +8,7 @@ BOUNDS = "all mathematical integers (unbounded z3 Int) for every argument"
 OUTSIDE = "non-integer arguments"
 STUBS = []
 MUST_REACH = ["align\\..*", "range\\..*", "blk\\..*"]
-OPTS = {"quick": {"case_timeout_s": 120}, "thorough": {"case_timeout_s": 600, "query_timeout_ms": 300000}}
+OPTS = {"quick": {"case_timeout_s": 400, "query_timeout_ms": 180000}, "thorough": {"case_timeout_s": 600, "query_timeout_ms": 300000}}
 
 
 def setup(symbolic):
